@@ -370,12 +370,13 @@ func VH_C18_instructions_large() {
 // A receiver that already went through a decode: decoding into it again gives exactly what a fresh receiver gives
 // (nothing of the earlier message survives), for every pair of byte strings. The three message kinds and arbitrary input.
 func VH_C18_decode_reused_receiver() {
-	hi := 8
+	// a command with an empty list and the optional network classmark is 9 octets, with a one-octet list 10
+	hi1, hi2 := 10, 7
 	if vrt.Thorough() {
-		hi = 10
+		hi1, hi2 = 12, 10
 	}
-	b1 := vrt.Bytes("b1", vrt.Choose("n1", 2, hi))
-	b2 := vrt.Bytes("b2", vrt.Choose("n2", 2, hi))
+	b1 := vrt.Bytes("b1", vrt.Choose("n1", 2, hi1))
+	b2 := vrt.Bytes("b2", vrt.Choose("n2", 2, hi2))
 	vrt.Assume(b1[1] >= 1 && b1[1] <= 4 && b2[1] >= 1 && b2[1] <= 4) // the message type octet: command, complete, reject, one unknown
 	u := NewUePolDeliverySer()
 	err1 := u.UePolDeliverySerDecode(b1)
